@@ -68,10 +68,13 @@ Section Triple.
 End Triple.
 
 (* ------------------------------------------------------------------ instance 1: confinement and frame *)
-Definition conf (root : ppath) (e : effect) : Prop :=
+(* a path is acceptable when it is under the root as the server names it, or under the absolutised root (aroot = the working
+   directory's parts followed by the root's parts: what os.path.abspath makes of tempfile's directory when the root is relative) *)
+Definition okp (root aroot : ppath) (p : ppath) : Prop := under root p = true \/ under aroot p = true.
+Definition conf (root aroot : ppath) (e : effect) : Prop :=
   match e with
-  | EStat p | EOpenRead p | EListDir p | EOpenDirW p | ECreate p | EUnlink p => under root p = true
-  | ERename a b => under root a = true /\ under root b = true
+  | EStat p | EOpenRead p | EListDir p | EOpenDirW p | ECreate p | EUnlink p => okp root aroot p
+  | ERename a b => okp root aroot a /\ okp root aroot b
   end.
 Definition below (rp k : list (list Z)) : Prop := exists rest, k = rp ++ rest.
 (* nothing outside the root changes *)
@@ -93,8 +96,8 @@ Lemma under_below root p : under root p = true -> below (parts root) (parts p).
 Proof. intros H. apply under_inv in H as [_ [rest [H _]]]. exists rest. exact H. Qed.
 
 Section Conf.
-  Variable root : ppath.
-  Notation T := (triple (Iframe (parts root)) (conf root)).
+  Variable root aroot : ppath.
+  Notation T := (triple (Iframe (parts root)) (conf root aroot)).
   Let Ir := Iframe_refl (parts root).
   Let It := Iframe_trans (parts root).
 
@@ -116,24 +119,24 @@ Section Conf.
     unfold fs_listdir. destruct (resolve (st_fs st) p); [exact I|]. destruct (lookup (st_fs st) l) as [[c|]|]; try exact I.
     apply children_no_dotdot. Qed.
 
-  Lemma conf_create p c : under root p = true -> T (create p c) (fun _ => True).
-  Proof. intros H st. unfold create, fs_create. destruct (resolve (st_fs st) p) as [e|k] eqn:Er.
-    - split; [apply Ir|]. split; [repeat constructor; exact H|exact I].
+  Lemma conf_create shown p c : okp root aroot shown -> under root p = true -> T (create shown p c) (fun _ => True).
+  Proof. intros Hs H st. unfold create, fs_create. destruct (resolve (st_fs st) p) as [e|k] eqn:Er.
+    - split; [apply Ir|]. split; [constructor; [exact Hs|constructor]|exact I].
     - destruct (lookup (st_fs st) k).
-      + split; [apply Ir|]. split; [repeat constructor; exact H|exact I].
-      + split; [|split; [repeat constructor; exact H|exact I]].
+      + split; [apply Ir|]. split; [constructor; [exact Hs|constructor]|exact I].
+      + split; [|split; [constructor; [exact Hs|constructor]|exact I]].
         intros k' Hk'. cbn. apply lookup_aset_other. intros ->. apply Hk'. apply resolve_key in Er. subst. apply under_below. exact H. Qed.
-  Lemma conf_unlink p : under root p = true -> T (unlink p) (fun _ => True).
-  Proof. intros H st. unfold unlink, fs_unlink. destruct (resolve (st_fs st) p) as [e|k] eqn:Er.
-    - split; [apply Ir|]. split; [repeat constructor; exact H|exact I].
+  Lemma conf_unlink shown p : okp root aroot shown -> under root p = true -> T (unlink shown p) (fun _ => True).
+  Proof. intros Hs H st. unfold unlink, fs_unlink. destruct (resolve (st_fs st) p) as [e|k] eqn:Er.
+    - split; [apply Ir|]. split; [constructor; [exact Hs|constructor]|exact I].
     - destruct (lookup (st_fs st) k) as [[c|]|].
-      + split; [|split; [repeat constructor; exact H|exact I]].
+      + split; [|split; [constructor; [exact Hs|constructor]|exact I]].
         intros k' Hk'. cbn. apply lookup_aremove_other. intros ->. apply Hk'. apply resolve_key in Er. subst. apply under_below. exact H.
-      + split; [apply Ir|]. split; [repeat constructor; exact H|exact I].
-      + split; [apply Ir|]. split; [repeat constructor; exact H|exact I]. Qed.
-  Lemma conf_rename a b : under root a = true -> under root b = true -> T (rename a b) (fun _ => True).
-  Proof. intros Ha Hb st. unfold rename, fs_rename.
-    assert (Forall (conf root) [ERename a b]) as Hc by (repeat constructor; assumption).
+      + split; [apply Ir|]. split; [constructor; [exact Hs|constructor]|exact I].
+      + split; [apply Ir|]. split; [constructor; [exact Hs|constructor]|exact I]. Qed.
+  Lemma conf_rename shown a b : okp root aroot shown -> under root a = true -> under root b = true -> T (rename shown a b) (fun _ => True).
+  Proof. intros Hs Ha Hb st. unfold rename, fs_rename.
+    assert (Forall (conf root aroot) [ERename shown b]) as Hc by (constructor; [split; [exact Hs|left; exact Hb]|constructor]).
     destruct (resolve (st_fs st) a) as [e|ka] eqn:Ea; [split; [apply Ir|split; [exact Hc|exact I]]|].
     destruct (lookup (st_fs st) ka) as [na|]; [|split; [apply Ir|split; [exact Hc|exact I]]].
     destruct (resolve (st_fs st) b) as [e|kb] eqn:Eb; [split; [apply Ir|split; [exact Hc|exact I]]|].
@@ -183,16 +186,42 @@ Proof.
   - change (last (a :: b :: r) [0]) with (last (b :: r) [0]) in H. specialize (IH eq_refl H).
     cbn [filter]. destruct (nonempty a); [discriminate|exact IH]. Qed.
 
+(* the Block1 spool touches neither the file system nor any path; it releases the request with the same method and Uri-Path *)
+Lemma feed_and_take_spec req st :
+  match feed_and_take req st with
+  | ((st', effs), r) => st_fs st' = st_fs st /\ effs = [] /\
+      match r with inr req' => opt_uri_path req' = opt_uri_path req /\ code req' = code req | inl _ => True end
+  end.
+Proof.
+  unfold feed_and_take. destruct (opt_block1 req) as [[[num more] szx]|]; [|cbn; auto].
+  destruct (num =? 0).
+  - destruct more; cbn; auto.
+  - destruct (spool_find (st_spool st) (block_key req)) as [acc|]; [|cbn; auto].
+    destruct (more && negb _); [cbn; auto|]. destruct (blk_start num szx =? blen acc); [|cbn; auto].
+    destruct more; cbn; auto.
+Qed.
+
 Section ServerConf.
   Variable self : fileserver.
   Hypothesis Hroot : root_ok (fs_root self).
   Hypothesis Htmp : fs_tmpname self <> DOTDOT.
   Let rootp := load_parts (fs_root self).
-  Notation T := (triple (Iframe (parts rootp)) (conf rootp)).
+  Let arootp := abspath self rootp.
+  Notation T := (triple (Iframe (parts rootp)) (conf rootp arootp)).
   Let Ir := Iframe_refl (parts rootp).
   Let It := Iframe_trans (parts rootp).
   Definition Qpath (req : request) (lp : ppath) : Prop :=
     under rootp lp = true /\ parts lp = parts rootp ++ filter nonempty (opt_uri_path req).
+
+  Lemma under_abspath d : under rootp d = true -> under arootp (abspath self d) = true.
+  Proof. intros H. apply under_inv in H as [Ha [rest [Hp Hd]]]. unfold arootp, abspath. rewrite Ha.
+    destruct (anchor rootp =? 0).
+    - unfold under. cbn [anchor parts]. rewrite Hp, app_assoc, strip_prefix_app. cbn [Z.eqb andb].
+      destruct (existsb (str_eqb DOTDOT) rest) eqn:E; [|reflexivity].
+      exfalso. apply existsb_exists in E as [x [Hx E]]. apply str_eqb_eq in E. subst x. exact (Hd Hx).
+    - unfold under. rewrite Ha, Z.eqb_refl, Hp, strip_prefix_app. cbn [andb].
+      destruct (existsb (str_eqb DOTDOT) rest) eqn:E; [|reflexivity].
+      exfalso. apply existsb_exists in E as [x [Hx E]]. apply str_eqb_eq in E. subst x. exact (Hd Hx). Qed.
 
   Lemma conf_lift req : T (lift_path (request_to_localpath self req)) (Qpath req).
   Proof. intros st. destruct (request_to_localpath self req) as [p|e] eqn:E; cbn.
@@ -245,10 +274,12 @@ Section ServerConf.
   Proof. intros Hp Hparts Hne. unfold store_file.
     assert (under rootp (parent p) = true) as Hpar by (eapply under_parent; eassumption).
     assert (under rootp (child (parent p) (fs_tmpname self)) = true) as Htmpu by (apply under_child; assumption).
+    assert (okp rootp arootp (child (abspath self (parent p)) (fs_tmpname self))) as Hshown
+      by (right; apply under_child; [apply under_abspath; exact Hpar|exact Htmp]).
     eapply (triple_bind _ _ It); [apply conf_open_dir_w; exact Hpar|]. intros [e|[]] _; [apply (triple_raise _ _ Ir)|].
-    eapply (triple_bind _ _ It); [apply conf_create; exact Htmpu|]. intros [e|[]] _; [apply (triple_raise _ _ Ir)|].
+    eapply (triple_bind _ _ It); [apply conf_create; [exact Hshown|exact Htmpu]|]. intros [e|[]] _; [apply (triple_raise _ _ Ir)|].
     eapply (triple_bind _ _ It); [apply conf_rename; assumption|]. intros [e|[]] _.
-    - eapply (triple_bind _ _ It); [apply conf_unlink; exact Htmpu|]. intros _ _. apply (triple_raise _ _ Ir).
+    - eapply (triple_bind _ _ It); [apply conf_unlink; [exact Hshown|exact Htmpu]|]. intros _ _. apply (triple_raise _ _ Ir).
     - eapply (triple_bind _ _ It); [apply conf_stat; exact Hp|]. intros [e|n] _; [apply (triple_raise _ _ Ir)|apply (triple_ret _ _ Ir); exact I]. Qed.
   Lemma conf_render_put req : T (render_put self req) (fun _ => True).
   Proof. unfold render_put. destruct (negb (fs_write self)); [apply (triple_ret _ _ Ir); exact I|].
@@ -262,23 +293,30 @@ Section ServerConf.
     destruct (_ || _); [apply (triple_ret _ _ Ir); exact I|].
     eapply (triple_bind _ _ It); [apply conf_lift|]. intros p [Hp _].
     eapply (triple_bind _ _ It); [apply conf_check_if_match; exact Hp|]. intros _ _.
-    eapply (triple_bind _ _ It); [apply conf_unlink; exact Hp|]. intros [[]|[]] _; first [apply (triple_raise _ _ Ir)|apply (triple_ret _ _ Ir); exact I]. Qed.
+    eapply (triple_bind _ _ It); [apply conf_unlink; [left; exact Hp|exact Hp]|]. intros [[]|[]] _; first [apply (triple_raise _ _ Ir)|apply (triple_ret _ _ Ir); exact I]. Qed.
   Lemma conf_render req : T (render self req) (fun _ => True).
   Proof. unfold render. destruct (code req =? 1); [apply conf_render_get|]. destruct (code req =? 3); [apply conf_render_put|].
     destruct (code req =? 4); [apply conf_render_delete|apply (triple_raise _ _ Ir)]. Qed.
+  Lemma conf_feed_and_take req : T (feed_and_take req) (fun _ => True).
+  Proof. intros st. pose proof (feed_and_take_spec req st) as H. destruct (feed_and_take req st) as [[st' effs] r].
+    destruct H as [H1 [-> _]]. split; [apply Iframe_same; exact H1|]. split; [constructor|destruct r; exact I]. Qed.
   Lemma conf_render_to_pipe req : T (render_to_pipe self req) (fun _ => True).
-  Proof. unfold render_to_pipe. destruct (opt_observe req) as [[|?|?]|]; try apply conf_render.
+  Proof. unfold render_to_pipe.
+    assert (T (if needs_blockwise_assembly req then (req' <-- feed_and_take req ;;; render self req') else render self req) (fun _ => True)) as Hn.
+    { destruct (needs_blockwise_assembly req); [|apply conf_render].
+      eapply (triple_bind _ _ It); [apply conf_feed_and_take|]. intros req' _. apply conf_render. }
+    destruct (opt_observe req) as [[|?|?]|]; try exact Hn.
     eapply (triple_bind _ _ It); [apply conf_add_observation|]. intros _ _. apply conf_render. Qed.
 
   (* every request: all effects under the root, nothing outside the root changes *)
   Lemma serve_confined req st :
-    match serve self req st with (st', effs, _) => Forall (conf rootp) effs /\ frame (parts rootp) (st_fs st) (st_fs st') end.
+    match serve self req st with (st', effs, _) => Forall (conf rootp arootp) effs /\ frame (parts rootp) (st_fs st) (st_fs st') end.
   Proof. unfold serve. pose proof (conf_render_to_pipe req st) as H.
     destruct (render_to_pipe self req st) as [[st' effs] [e|r]]; destruct H as [H1 [H2 _]]; split; assumption. Qed.
 
   Definition all_effects (o : list (list effect * response)) : list effect := flat_map fst o.
   Lemma fetch_all_confined fuel req szx : forall n st,
-    match fetch_all fuel self req szx n st with (st', o) => Forall (conf rootp) (all_effects o) /\ frame (parts rootp) (st_fs st) (st_fs st') end.
+    match fetch_all fuel self req szx n st with (st', o) => Forall (conf rootp arootp) (all_effects o) /\ frame (parts rootp) (st_fs st) (st_fs st') end.
   Proof. induction fuel as [|f IH]; intros n st; cbn [fetch_all];
     pose proof (serve_confined (with_block2 req (Some (n, false, szx))) st) as H;
     destruct (serve self (with_block2 req (Some (n, false, szx))) st) as [[st1 effs] r]; destruct H as [H1 H2].
@@ -287,13 +325,13 @@ Section ServerConf.
       specialize (IH (n + 1) st1). destruct (fetch_all f self req szx (n + 1) st1) as [st2 rs]. destruct IH as [H3 H4].
       split; [cbn; apply Forall_app; split; assumption|eapply frame_trans; eassumption]. Qed.
   Lemma step_confined st i :
-    match step self st i with (st', o) => Forall (conf rootp) (all_effects o) /\ frame (parts rootp) (st_fs st) (st_fs st') end.
+    match step self st i with (st', o) => Forall (conf rootp arootp) (all_effects o) /\ frame (parts rootp) (st_fs st) (st_fs st') end.
   Proof. destruct i as [r|r szx]; cbn [step].
     - pose proof (serve_confined r st) as H. destruct (serve self r st) as [[st1 effs] resp]. destruct H. cbn. rewrite app_nil_r. split; assumption.
     - apply fetch_all_confined. Qed.
   (* every history *)
   Lemma run_confined items : forall st,
-    match run self st items with (st', os) => Forall (fun o => Forall (conf rootp) (all_effects o)) os /\ frame (parts rootp) (st_fs st) (st_fs st') end.
+    match run self st items with (st', os) => Forall (fun o => Forall (conf rootp arootp) (all_effects o)) os /\ frame (parts rootp) (st_fs st) (st_fs st') end.
   Proof. induction items as [|i r IH]; intros st; cbn [run].
     - split; [constructor|apply frame_refl].
     - pose proof (step_confined st i) as H. destruct (step self st i) as [st1 o]. destruct H as [H1 H2].
@@ -354,8 +392,15 @@ Section ServerRO.
     - destruct H as [H|[H _]]; [|lia]. unfold render_put. rewrite H. apply (triple_ret _ _ Ir). exact I.
     - destruct (code req =? 4) eqn:E4; [|apply (triple_raise _ _ Ir)].
       destruct H as [H|[_ H]]; [|lia]. unfold render_delete. rewrite H. apply (triple_ret _ _ Ir). exact I. Qed.
+  Lemma ro_feed_and_take req : R (feed_and_take req) (fun req' => opt_uri_path req' = opt_uri_path req /\ code req' = code req).
+  Proof. intros st. pose proof (feed_and_take_spec req st) as H. destruct (feed_and_take req st) as [[st' effs] r].
+    destruct H as [H1 [-> H3]]. split; [exact H1|]. split; [constructor|exact H3]. Qed.
   Lemma ro_render_to_pipe req : read_only_request req -> R (render_to_pipe self req) (fun _ => True).
-  Proof. intros H. unfold render_to_pipe. destruct (opt_observe req) as [[|?|?]|]; try (apply ro_render; exact H).
+  Proof. intros H. unfold render_to_pipe.
+    assert (R (if needs_blockwise_assembly req then (req' <-- feed_and_take req ;;; render self req') else render self req) (fun _ => True)) as Hn.
+    { destruct (needs_blockwise_assembly req); [|apply ro_render; exact H].
+      eapply (triple_bind _ _ It); [apply ro_feed_and_take|]. intros req' [_ Hc]. apply ro_render. unfold read_only_request in *. rewrite Hc. exact H. }
+    destruct (opt_observe req) as [[|?|?]|]; try exact Hn.
     eapply (triple_bind _ _ It); [apply ro_add_observation|]. intros _ _. apply ro_render. exact H. Qed.
   Lemma serve_readonly req st : read_only_request req ->
     match serve self req st with (st', effs, _) => st_fs st' = st_fs st /\ Forall reading effs end.
@@ -380,13 +425,13 @@ Lemma out_ret {A} (a : A) st : out (ret a) st = (st, inr a). Proof. reflexivity.
 Lemma out_raise {A} e st : out (@raise A e) st = (st, inl e). Proof. reflexivity. Qed.
 Lemma out_stat p st : out (stat p) st = (st, inr (fs_stat (st_fs st) p)). Proof. reflexivity. Qed.
 Lemma out_open_dir_w p st : out (open_dir_w p) st = (st, inr (if has_nul p then inl EINVAL else inr tt)). Proof. reflexivity. Qed.
-Lemma out_create p c st : out (create p c) st =
+Lemma out_create shown p c st : out (create shown p c) st =
   match fs_create (st_fs st) p c with inl e => (st, inr (inl e)) | inr fs' => (with_fs st fs', inr (inr tt)) end.
 Proof. unfold out, create. destruct (fs_create (st_fs st) p c); reflexivity. Qed.
-Lemma out_rename a b st : out (rename a b) st =
+Lemma out_rename shown a b st : out (rename shown a b) st =
   match fs_rename (st_fs st) a b with inl e => (st, inr (inl e)) | inr fs' => (with_fs st fs', inr (inr tt)) end.
 Proof. unfold out, rename. destruct (fs_rename (st_fs st) a b); reflexivity. Qed.
-Lemma out_unlink p st : out (unlink p) st =
+Lemma out_unlink shown p st : out (unlink shown p) st =
   match fs_unlink (st_fs st) p with inl e => (st, inr (inl e)) | inr fs' => (with_fs st fs', inr (inr tt)) end.
 Proof. unfold out, unlink. destruct (fs_unlink (st_fs st) p); reflexivity. Qed.
 
@@ -428,8 +473,8 @@ Proof.
   { intros k. destruct (list_eq_dec (list_eq_dec Z.eq_dec) k (parts tmp)) as [->|Hk].
     - rewrite lookup_aremove_same by exact Htne. rewrite Hfresh. reflexivity.
     - rewrite lookup_aremove_other by congruence. apply H1. exact Hk. }
-  assert (forall e, out (unlink tmp ;;; @raise response (XOSError e)) (with_fs st fs1) = (with_fs st (aremove fs1 (parts tmp)), inl (XOSError e))) as Hunl.
-  { intros e. rewrite out_bind, out_unlink. cbn [st_fs with_fs]. unfold fs_unlink. rewrite Ert1, H1t. cbv beta iota. rewrite out_raise. reflexivity. }
+  assert (forall shown e, out (unlink shown tmp ;;; @raise response (XOSError e)) (with_fs st fs1) = (with_fs st (aremove fs1 (parts tmp)), inl (XOSError e))) as Hunl.
+  { intros shown e. rewrite out_bind, out_unlink. cbn [st_fs with_fs]. unfold fs_unlink. rewrite Ert1, H1t. cbv beta iota. rewrite out_raise. reflexivity. }
   destruct (resolve fs1 p) as [e|kp] eqn:Erp; cbv beta iota.
   - rewrite Hunl. exact Hundo.
   - pose proof (resolve_key _ _ _ Erp) as Hkp. subst kp.
@@ -450,11 +495,11 @@ Qed.
 Lemma errsafe_ro st (m : FM response) Q : R m Q -> errsafe_at st m.
 Proof. intros H. unfold errsafe_at, out. specialize (H st). destruct (m st) as [[st1 e1] [x|r]]; destruct H as [H _]; cbn; unfold Isame in H; rewrite H; intros; apply fs_equiv_refl. Qed.
 Lemma errsafe_bind_ro {A} st (m : FM A) (f : A -> FM response) Q :
-  R m Q -> (forall a st1, st_fs st1 = st_fs st -> errsafe_at st1 (f a)) -> errsafe_at st (bindF m f).
+  R m Q -> (forall a st1, Q a -> st_fs st1 = st_fs st -> errsafe_at st1 (f a)) -> errsafe_at st (bindF m f).
 Proof. intros Hm Hf. unfold errsafe_at. rewrite out_bind. unfold out at 1. specialize (Hm st).
-  destruct (m st) as [[st1 e1] [x|a]]; destruct Hm as [H _]; unfold Isame in H; cbn [fst snd].
+  destruct (m st) as [[st1 e1] [x|a]]; destruct Hm as [H [_ HQ]]; unfold Isame in H; cbn [fst snd].
   - rewrite H. apply fs_equiv_refl.
-  - specialize (Hf a st1 H). unfold errsafe_at in Hf. rewrite <- H. exact Hf. Qed.
+  - specialize (Hf a st1 HQ H). unfold errsafe_at in Hf. rewrite <- H. exact Hf. Qed.
 
 Section ErrSafe.
   Variable self : fileserver.
@@ -472,7 +517,7 @@ Section ErrSafe.
     unfold errsafe_at. rewrite out_bind. unfold lift_path.
     destruct (request_to_localpath self req) as [p|e] eqn:E; [|rewrite out_raise; apply fs_equiv_refl].
     rewrite out_ret. change (errsafe_at st (put_preconditions self req (load_parts p) ;;; store_file self req (load_parts p))).
-    eapply errsafe_bind_ro; [apply ro_put_preconditions|]. intros _ st1 H1. apply store_file_errsafe.
+    eapply errsafe_bind_ro; [apply ro_put_preconditions|]. intros _ st1 _ H1. apply store_file_errsafe.
     - destruct (request_to_localpath_confined _ _ _ Hroot E) as [Hp _]. rewrite Hp. cbn [parts].
       intros H. apply app_eq_nil in H as [_ H]. exact (filter_last_nonempty _ G1 G2 H).
     - rewrite H1. apply Hf. exact E. Qed.
@@ -480,17 +525,24 @@ Section ErrSafe.
   Proof. unfold render_delete.
     destruct (negb (fs_write self)); [unfold errsafe_at; rewrite out_ret; intros; apply fs_equiv_refl|].
     destruct (_ || _); [unfold errsafe_at; rewrite out_ret; intros; apply fs_equiv_refl|].
-    eapply errsafe_bind_ro; [apply ro_lift|]. intros p st1 H1.
-    eapply errsafe_bind_ro; [apply ro_check_if_match|]. intros _ st2 H2.
+    eapply errsafe_bind_ro; [apply ro_lift|]. intros p st1 _ H1.
+    eapply errsafe_bind_ro; [apply ro_check_if_match|]. intros _ st2 _ H2.
     unfold errsafe_at. rewrite out_bind, out_unlink. destruct (fs_unlink (st_fs st2) p) as [[]|fs']; cbv beta iota;
       try (rewrite out_raise; apply fs_equiv_refl). rewrite out_ret. intros Hc. cbn in Hc. lia. Qed.
   Lemma errsafe_render req st : tmp_fresh req (st_fs st) -> errsafe_at st (render self req).
   Proof. intros Hf. unfold render. destruct (code req =? 1); [eapply errsafe_ro; apply ro_render_get|].
     destruct (code req =? 3); [apply errsafe_render_put; exact Hf|].
     destruct (code req =? 4); [apply errsafe_render_delete|]. unfold errsafe_at. rewrite out_raise. apply fs_equiv_refl. Qed.
+  Lemma rtl_ext a b : opt_uri_path a = opt_uri_path b -> request_to_localpath self a = request_to_localpath self b.
+  Proof. intros H. unfold request_to_localpath. rewrite H. reflexivity. Qed.
   Lemma errsafe_render_to_pipe req st : tmp_fresh req (st_fs st) -> errsafe_at st (render_to_pipe self req).
-  Proof. intros Hf. unfold render_to_pipe. destruct (opt_observe req) as [[|?|?]|]; try (apply errsafe_render; exact Hf).
-    eapply errsafe_bind_ro; [apply ro_add_observation|]. intros _ st1 H1. apply errsafe_render. rewrite H1. exact Hf. Qed.
+  Proof. intros Hf. unfold render_to_pipe.
+    assert (errsafe_at st (if needs_blockwise_assembly req then (req' <-- feed_and_take req ;;; render self req') else render self req)) as Hn.
+    { destruct (needs_blockwise_assembly req); [|apply errsafe_render; exact Hf].
+      eapply errsafe_bind_ro; [apply ro_feed_and_take|]. intros req' st1 [Hu _] H1. apply errsafe_render.
+      intros p Hp. rewrite H1. apply Hf. rewrite <- Hp. symmetry. apply rtl_ext. exact Hu. }
+    destruct (opt_observe req) as [[|?|?]|]; try exact Hn.
+    eapply errsafe_bind_ro; [apply ro_add_observation|]. intros _ st1 _ H1. apply errsafe_render. rewrite H1. exact Hf. Qed.
   (* a request answered with an error code (4.xx / 5.xx) leaves every file-system entry as it was *)
   Lemma serve_error_no_effect req st : tmp_fresh req (st_fs st) ->
     match serve self req st with (st', _, r) => 128 <= rcode r -> fs_equiv (st_fs st') (st_fs st) end.
@@ -541,7 +593,9 @@ Section Blockwise.
   Hypothesis Hobs : opt_observe req = None.
   Hypothesis Hetags : opt_etags req = [].
   Hypothesis Hwkc : parts_eqb (opt_uri_path req) WKC = false.
-  Hypothesis Hlast : nonempty_list (opt_uri_path req) && last_is_empty (opt_uri_path req) = false.
+  Hypothesis Hnba : needs_blockwise_assembly req = false.        (* i.e. a non-empty Uri-Path that does not end in "" and is not .well-known/core *)
+  Lemma Hlast : nonempty_list (opt_uri_path req) && last_is_empty (opt_uri_path req) = false.
+  Proof. unfold needs_blockwise_assembly in Hnba. apply orb_false_elim in Hnba as [H _]. apply orb_false_elim in H as [_ H]. rewrite H. apply andb_false_r. Qed.
   Hypothesis Hpath : request_to_localpath self req = Ok p.
 
   Definition block_response (n szx : Z) : response :=
@@ -554,7 +608,9 @@ Section Blockwise.
   Proof.
     intros Hst.
     assert (exists st1, out (render_to_pipe self (with_block2 req (Some (n, false, szx)))) st = (st1, inr (block_response n szx)) /\ st_fs st1 = st_fs st) as [st1 [H1 H2]].
-    { unfold render_to_pipe. cbn [opt_observe with_block2]. rewrite Hobs. unfold render. cbn [code with_block2]. rewrite Hcode. cbn [Z.eqb Pos.eqb].
+    { unfold render_to_pipe. cbn [opt_observe with_block2]. rewrite Hobs.
+      change (needs_blockwise_assembly (with_block2 req (Some (n, false, szx)))) with (needs_blockwise_assembly req). rewrite Hnba.
+      unfold render. cbn [code with_block2]. rewrite Hcode. cbn [Z.eqb Pos.eqb].
       unfold render_get. cbn [opt_uri_path with_block2]. rewrite Hwkc.
       assert (request_to_localpath self (with_block2 req (Some (n, false, szx))) = Ok p) as -> by exact Hpath.
       rewrite out_bind. unfold lift_path. rewrite out_ret, out_bind, out_stat, Hst. cbv beta iota.
@@ -592,3 +648,22 @@ Section Blockwise.
       + cbn. rewrite app_nil_r. split; [apply block_last; assumption|]. split; [repeat constructor|exact H1].
   Qed.
 End Blockwise.
+
+(* ------------------------------------------------------------------ Block1: what the spool hands to render_put *)
+Lemma feed_last req st num szx acc :
+  opt_block1 req = Some (num, false, szx) -> num <> 0 ->
+  spool_find (st_spool st) (block_key req) = Some acc -> blk_start num szx = blen acc ->
+  exists st', feed_and_take req st = ((st', []), inr (with_payload req (acc ++ payload req))) /\ st_fs st' = st_fs st.
+Proof. intros H1 Hn Hs Ho. unfold feed_and_take. rewrite H1, Hs. replace (num =? 0) with false by lia.
+  cbn [andb]. rewrite Ho, Z.eqb_refl. eexists. split; reflexivity. Qed.
+Lemma feed_gap req st num more szx acc :
+  opt_block1 req = Some (num, more, szx) -> num <> 0 ->
+  spool_find (st_spool st) (block_key req) = Some acc -> blk_start num szx <> blen acc ->
+  exists e, feed_and_take req st = ((st, []), inl e) /\ (e = XIncomplete \/ e = XBadRequest).
+Proof. intros H1 Hn Hs Ho. unfold feed_and_take. rewrite H1, Hs. replace (num =? 0) with false by lia.
+  destruct (more && negb _); [eexists; split; [reflexivity|right; reflexivity]|].
+  replace (blk_start num szx =? blen acc) with false by lia. eexists; split; [reflexivity|left; reflexivity]. Qed.
+Lemma feed_unknown req st num more szx :
+  opt_block1 req = Some (num, more, szx) -> num <> 0 -> spool_find (st_spool st) (block_key req) = None ->
+  feed_and_take req st = ((st, []), inl XIncomplete).
+Proof. intros H1 Hn Hs. unfold feed_and_take. rewrite H1, Hs. replace (num =? 0) with false by lia. reflexivity. Qed.
